@@ -57,18 +57,29 @@ class FileCache:
         self.update_file_futures_and_memory(file_name, memory_usage=memory_usage)
         return contents
 
-    @staticmethod
-    def _dirs_gaining_entry(path):
+    def _dirs_gaining_entry(self, path):
         """
-        The directories that get a new entry when `path` is created together with its
-        missing parent directories: the parent of every path component that does not exist yet.
+        The directories to fsync so that the file `path` below the root (about to be created
+        or rewritten) and every directory leading to it are durable: all directories from the
+        file's own up to the one that holds the root, and above that the parent of every path
+        component that does not exist yet.  A file or directory that exists already is not
+        taken to be durable: it may stem from a write that failed or was killed before it had
+        synced its directories, or from a concurrent write that has not done so yet.
         """
+        root = os.path.abspath(self.root_path)
+        path = os.path.abspath(path)
         dirs = []
-        while not os.path.exists(path):
+        while path != root and os.path.dirname(path) != path:
+            path = os.path.dirname(path)
+            dirs.append(path)
+        path = root
+        while True:
             parent = os.path.dirname(path)
             if parent == path:
                 break
-            dirs.append(parent or os.curdir)
+            dirs.append(parent)
+            if os.path.exists(parent):
+                break
             path = parent
         return dirs
 
